@@ -8,6 +8,7 @@ package transports
 // packets costs no time-outs.  Two snapshots are returned: before and after the stream is closed.
 
 import (
+	"bytes"
 	"fmt"
 	"time"
 
@@ -17,11 +18,24 @@ import (
 	"github.com/cnotch/ipchub/media"
 )
 
+// safeSettle: the package's settle gives up with a panic after 20 s; for this replay that is "not evaluated"
+func safeSettle() (ok bool) {
+	defer func() {
+		if recover() != nil {
+			ok = false
+		}
+	}()
+	settle()
+	return true
+}
+
 func RunC07(c Val) Val {
 	start()
 	refs, pkts, cls := c.At(0).Bool(), c.At(1).List(), c.At(2).List()
 	media.UnregistAll()
-	settle()
+	if !safeSettle() {
+		return L(S("!uneval"), S("settle"))
+	}
 	var stream *media.Stream
 	needMcast := false
 	for _, cv := range cls {
@@ -66,11 +80,11 @@ func RunC07(c Val) Val {
 			cl.cleanup()
 		}
 		media.UnregistAll()
-		settle()
+		safeSettle()
 	}()
 	for _, cl := range clients {
 		if err := cl.attach(stream); err != nil {
-			return L(S("!setup"), S(err.Error()))
+			return L(S("!uneval"), S("handshake: "+err.Error()))
 		}
 		cl.attached = true
 		cl.stream = stream
@@ -78,10 +92,9 @@ func RunC07(c Val) Val {
 			cl.ref = &refConsumer{}
 			cl.refCID = stream.StartConsume(cl.ref, media.FLVPacket, "verif-reference")
 		}
-		settle()
+		safeSettle()
 	}
 	note := ""
-	want := make([]int, len(clients))
 	// events (0 n): the next n packets are published back to back (a burst fills the sessions' write buffers)
 	groupEnd := map[int]bool{}
 	pos := 0
@@ -91,6 +104,26 @@ func RunC07(c Val) Val {
 			groupEnd[pos-1] = true
 		}
 	}
+	// Pacing: after a packet (or burst) wait for the event itself — the packet has reached every viewer
+	// that is owed it — with a bound that only an unschedulable machine or real damage reaches.  A bound
+	// that is hit is not a verdict; twice in a row and the rest of the case is published without pacing.
+	const bound = 60 * time.Second
+	boundHits, consecutive := 0, 0
+	has := func(cl *client, ch int64, data []byte) bool {
+		rec := ch
+		if cl.kind != 1 && cl.kind != 6 {
+			rec = cl.chmap[ch]
+		}
+		cl.mu.Lock()
+		defer cl.mu.Unlock()
+		for i := len(cl.msgs) - 1; i >= 0; i-- {
+			if cl.msgs[i].a == rec && bytes.Equal(cl.msgs[i].data, data) {
+				return true
+			}
+		}
+		return false
+	}
+	var pending []int
 	for idx, p := range pkts {
 		pk := &rtp.Packet{Channel: byte(p.At(0).Int()), Data: p.At(1).Bytes()}
 		if pk.Channel == rtp.ChannelVideo || pk.Channel == rtp.ChannelAudio {
@@ -99,37 +132,99 @@ func RunC07(c Val) Val {
 			}
 		}
 		stream.WriteRtpPacket(pk)
-		for i, cl := range clients {
-			if !cl.isFLV() && owed[i][idx] && cl.chmap[p.At(0).Int()] >= 0 {
-				want[i]++
-			}
-		}
+		pending = append(pending, idx)
 		if !groupEnd[idx] && idx < pos {
 			continue // inside a burst
 		}
-		settle()
+		if consecutive >= 2 {
+			pending = pending[:0]
+			continue
+		}
+		if !safeSettle() {
+			return L(S("!uneval"), S("settle"))
+		}
+		hit := false
 		for i, cl := range clients {
 			if cl.isEnded() {
 				continue
 			}
 			cl := cl
 			if cl.isFLV() {
-				if cl.kind == 5 && cl.ref != nil {
-					waitUntil(2*time.Second, func() bool { return cl.count() >= cl.ref.count() })
+				if cl.kind == 5 && cl.ref != nil && !waitUntil(bound, func() bool { return cl.count() >= cl.ref.count() || cl.isEnded() }) {
+					hit = true
 				}
 				continue
 			}
-			w := want[i]
-			if cl.kind == 0 && cl.count() < w {
-				settle()
-				cl.request(fmt.Sprintf("OPTIONS rtsp://127.0.0.1:554%s RTSP/1.0\r\nCSeq: #\r\n\r\n", streamPath))
-			}
-			if !waitUntil(2*time.Second, func() bool { return cl.count() >= w || cl.isEnded() }) && note == "" {
-				note = fmt.Sprintf("client %d: %d of %d messages after packet %d", i, cl.count(), w, idx)
+			for _, j := range pending {
+				ch := pkts[j].At(0).Int()
+				if !owed[i][j] || cl.chmap[ch] < 0 {
+					continue
+				}
+				data := pkts[j].At(1).Bytes()
+				if cl.kind == 0 && !has(cl, ch, data) {
+					// interleaved frames wait in the session's buffered.Conn until a write gets a flush token;
+					// a keep-alive request makes the server flush
+					safeSettle()
+					cl.request(fmt.Sprintf("OPTIONS rtsp://127.0.0.1:554%s RTSP/1.0\r\nCSeq: #\r\n\r\n", streamPath))
+				}
+				if !waitUntil(bound, func() bool { return has(cl, ch, data) || cl.isEnded() }) {
+					hit = true
+					if note == "" {
+						note = fmt.Sprintf("client %d: packet %d not seen within the bound", i, j)
+					}
+					break
+				}
 			}
 		}
+		pending = pending[:0]
+		if hit {
+			boundHits++
+			consecutive++
+		} else {
+			consecutive = 0
+		}
 	}
-	settle()
+	if !safeSettle() {
+		return L(S("!uneval"), S("settle"))
+	}
+	if boundHits > 0 {
+		// positive evidence of damage: a session has ended, a viewer read something that is not a frame, or
+		// a viewer misses an owed packet although a later one of the same channel has reached it
+		evidence := false
+		for i, cl := range clients {
+			if cl.isEnded() {
+				evidence = true
+			}
+			cl.mu.Lock()
+			for _, m := range cl.msgs {
+				if m.a < 0 && !cl.isFLV() {
+					evidence = true
+				}
+			}
+			cl.mu.Unlock()
+			if cl.isFLV() {
+				continue
+			}
+			for ch := int64(0); ch < 4; ch++ {
+				missing := false
+				for j := range pkts {
+					if pkts[j].At(0).Int() != ch || !owed[i][j] || cl.chmap[ch] < 0 {
+						continue
+					}
+					if has(cl, ch, pkts[j].At(1).Bytes()) {
+						if missing {
+							evidence = true
+						}
+					} else {
+						missing = true
+					}
+				}
+			}
+		}
+		if !evidence {
+			return L(S("!uneval"), S(note))
+		}
+	}
 	snap := func() Val {
 		ended := make([]Val, len(clients))
 		for i, cl := range clients {
@@ -139,7 +234,7 @@ func RunC07(c Val) Val {
 	}
 	before := snap()
 	stream.Close()
-	waitUntil(3*time.Second, func() bool {
+	waitUntil(bound, func() bool {
 		for _, cl := range clients {
 			if !cl.isEnded() {
 				return false
@@ -147,7 +242,7 @@ func RunC07(c Val) Val {
 		}
 		return true
 	})
-	settle()
+	safeSettle()
 	after := snap()
 	out := make([]Val, len(clients))
 	for i, cl := range clients {
